@@ -1,7 +1,7 @@
 (** C09 — Any interleaving of writes and finalize calls yields the same files
     as drop.  Statements only; proofs in Proofs/WriterInv.v. *)
 From SF Require Import Model.Bytes Model.ShapeType Model.Shapes Model.Res Model.Encode Model.Writer.
-From SF Require Import Proofs.WriterInv.
+From SF Require Import Proofs.WriterInv Proofs.BulkTail.
 Open Scope Z_scope.
 
 (** For every history over {write s, finalize} (writes of any shapes of any
@@ -49,3 +49,14 @@ Example C09_example :
   zlen (fst (files (snd (run_history true world0 cs EDrop)))) = 156 /\
   files (snd (run_history true world0 cs EDrop)) = files (snd (run_history true world0 [CWrite p; CWrite p] EDrop)).
 Proof. cbv zeta. split; [repeat constructor; discriminate|]. split; vm_compute; reflexivity. Qed.
+
+(** ** Histories ended by the bulk helper `write_shapes(self, tail)`
+    (Proofs/BulkTail.v).  When every write of the tail succeeds, the files are
+    those of the same history with the tail written shape by shape and the
+    writer dropped — to which the theorems above apply. *)
+Theorem C09_bulk_ending : forall (hs : bool) (w0 : world) (cs : list wcall) (tail : list shape),
+  (let '(rs, _, _) := run_calls (cs ++ map CWrite tail) (w_new hs) w0 in
+   Forall (fun r => r = Ok tt) (skipn (length cs) rs)) ->
+  snd (run_history_bulk hs w0 cs tail) = snd (run_history hs w0 (cs ++ map CWrite tail) EDrop).
+Proof. exact bulk_all_ok. Qed.
+Print Assumptions C09_bulk_ending.
